@@ -830,24 +830,26 @@ def report(ctx: Ctx, traces: list[dict], rej: dict[int, int]) -> None:
 # ---- the check -----------------------------------------------------------------------------------------------------------
 def model_check(ctx: Ctx, quick: bool) -> None:
     seed = ctx.seed
+    # calibration (2 workers, idle machine): ~10 CPU-s JVM + universe, then per description ~10 CPU-s (MaxRw=2, MaxMut=1),
+    # ~8 (3, 0), ~160 (3, 1), ~2 / ~19 with WithAxis (MaxMut 0 / 1); the N=2 universe has 238 descriptions, N=3 ~6000
     if quick:
-        cfgs = [dict(n=2, rich="FALSE", shard=(seed * 7 + 3) % 80, nshards=80, maxrw=2, maxmut=1, axis="FALSE"),
-                dict(n=2, rich="FALSE", shard=(seed * 5 + 1) % 60, nshards=60, maxrw=3, maxmut=0, axis="FALSE"),
-                dict(n=2, rich="FALSE", shard=(seed * 3 + 2) % 40, nshards=40, maxrw=2, maxmut=0, axis="TRUE")]
-        workers = 2
+        cfgs = [dict(n=2, rich="FALSE", shard=(seed * 7 + 5) % 119, nshards=119, maxrw=2, maxmut=1, axis="FALSE"),
+                dict(n=2, rich="FALSE", shard=(seed * 5 + 7) % 119, nshards=119, maxrw=3, maxmut=0, axis="FALSE"),
+                dict(n=2, rich="FALSE", shard=(seed * 3 + 9) % 238, nshards=238, maxrw=2, maxmut=1, axis="TRUE")]
     else:
-        cfgs = [dict(n=2, rich="FALSE", shard=(seed + s) % 12, nshards=12, maxrw=2, maxmut=1, axis="FALSE") for s in range(3)]
-        cfgs += [dict(n=2, rich="FALSE", shard=(seed + s) % 8, nshards=8, maxrw=3, maxmut=0, axis="FALSE") for s in range(2)]
-        cfgs += [dict(n=2, rich="FALSE", shard=(seed + 1) % 100, nshards=100, maxrw=3, maxmut=1, axis="FALSE")]
-        cfgs += [dict(n=2, rich="FALSE", shard=(seed + s) % 6, nshards=6, maxrw=2, maxmut=1, axis="TRUE") for s in range(2)]
-        cfgs += [dict(n=3, rich="FALSE", shard=(seed + 11) % 300, nshards=300, maxrw=2, maxmut=1, axis="FALSE")]
-        workers = 2
+        cfgs = [dict(n=2, rich="FALSE", shard=(seed + 8 * s) % 24, nshards=24, maxrw=2, maxmut=1, axis="FALSE") for s in range(3)]
+        cfgs += [dict(n=2, rich="FALSE", shard=(seed + 12 * s + 1) % 24, nshards=24, maxrw=3, maxmut=0, axis="FALSE") for s in range(2)]
+        cfgs += [dict(n=2, rich="FALSE", shard=(seed + 11) % 238, nshards=238, maxrw=3, maxmut=1, axis="FALSE")]
+        cfgs += [dict(n=2, rich="FALSE", shard=(seed + 6 * s) % 12, nshards=12, maxrw=2, maxmut=0, axis="TRUE") for s in range(2)]
+        cfgs += [dict(n=2, rich="FALSE", shard=(seed + 3) % 40, nshards=40, maxrw=2, maxmut=1, axis="TRUE")]
+        cfgs += [dict(n=3, rich="FALSE", shard=(seed + 11) % 600, nshards=600, maxrw=2, maxmut=1, axis="FALSE")]
+    workers = 2
 
     def one(k: int):
         c = cfgs[k]
         wd = ctx.workdir(f"mc_rewrites_{k}")
         return run_tlc("MC_Rewrites", MC_CFG.format(**c), wd, workers=workers, coverage=True, allow_violation=False,
-                       timeout=3000, heap="3g")
+                       timeout=6000, heap="3g")
     with ThreadPoolExecutor(max_workers=len(cfgs) if quick else 4) as ex:
         for c, r in zip(cfgs, ex.map(one, range(len(cfgs)))):
             ctx.add_tlc(r, f"MC_Rewrites N={c['n']} shard {c['shard']}/{c['nshards']} MaxRw={c['maxrw']} MaxMut={c['maxmut']} "
@@ -873,7 +875,7 @@ def run(ctx: Ctx) -> None:
     ctx.exhaustive = False
     model_check(ctx, quick)
 
-    ncall, nmap = (110, 40) if quick else (1400, 500)
+    ncall, nmap = (110, 40) if quick else (1000, 300)
     maxlen = 3 if quick else 5
     jobs = [{"seed": ctx.seed * 1000003 + k, "mode": "call", "maxlen": maxlen, "maxfuncs": 4 if quick else 5}
             for k in range(ncall)]
